@@ -113,6 +113,8 @@ def check_formats(ctx, rule, funcs, scope_note=''):
     for s in struct_sites(prog, f):
       sites.append(s)
       desc = '%s(%s)' % (s.op, U(s.fmt_node) if s.fmt_node is not None else '')
+      if s.fmt is None and isinstance(s.fmt_node, ast.Name) and s.fmt_node.id in f.params:
+        continue     # pass-through helper (format supplied by the caller, checked there)
       if s.fmt is None:
         ctx.ob(rule, f, desc, False,
                'struct %s call without a recognisable format / value arguments' % s.op,
@@ -179,6 +181,23 @@ def check_formats(ctx, rule, funcs, scope_note=''):
                      'unpack needs exactly calcsize(format) bytes')
             except ValueError:
               ctx.ob(rule, f, desc + ' read-size', False, 'cannot interpret read size %s' % U(src.args[0]), '')
+    # tuple targets of unpack results: one name per field
+    for st in walk_no_nested(f.node):
+      if isinstance(st, ast.Assign) and isinstance(st.value, ast.Call) and isinstance(st.targets[0], ast.Tuple):
+        c = st.value
+        last = (dotted(c.func) or '').split('.')[-1]
+        fmt = None
+        if last == 'unpack' and c.args:
+          fmt = parse_format(c.args[0])
+          if fmt is None and isinstance(c.func, ast.Attribute):
+            sc = struct_const_format(prog, f, c.func.value)
+            fmt = parse_format(None, sc[0]) if sc else None
+        elif last == 'Unpack' and c.args:
+          fmt = parse_format(c.args[0])
+        if fmt is not None and fmt.nargs is not None:
+          ctx.ob(rule, f, 'unpack targets %s' % U(st.targets[0]), len(st.targets[0].elts) == fmt.nargs,
+                 '%d names receive %d unpacked fields of %r' % (len(st.targets[0].elts), fmt.nargs, fmt.text),
+                 'a tuple target of different length raises ValueError on every message')
   return sites
 
 
